@@ -22,8 +22,9 @@ type nWorld struct {
 	target    int
 }
 
-func nScenario(waiters, updates int, cancel bool) vsync.Scenario {
-	name := fmt.Sprintf("waiters=%d updates=%d cancel=%v", waiters, updates, cancel)
+// cancelFirstOnly: every waiter has its own context and only waiter 0's is cancelled; the others must not be affected.
+func nScenario(waiters, updates int, cancel bool, cancelFirstOnly bool) vsync.Scenario {
+	name := fmt.Sprintf("waiters=%d updates=%d cancel=%v first-only=%v", waiters, updates, cancel, cancelFirstOnly)
 	return vsync.Scenario{
 		Name: name,
 		Setup: func(s *vsync.Sched) vsync.World {
@@ -33,11 +34,15 @@ func nScenario(waiters, updates int, cancel bool) vsync.Scenario {
 			ctx, cancelFn := context.WithCancel(context.Background())
 			for i := 0; i < waiters; i++ {
 				i := i
+				wctx := ctx
+				if cancelFirstOnly && i > 0 {
+					wctx = context.Background()
+				}
 				vsync.GoNamed(fmt.Sprintf("W%d", i), func() {
 					n.L.Lock()
 					ok := true
 					for w.val < w.target && ok {
-						ok = n.Wait(ctx)
+						ok = n.Wait(wctx)
 					}
 					w.seen[i] = w.val
 					n.L.Unlock()
@@ -78,8 +83,8 @@ func nScenario(waiters, updates int, cancel bool) vsync.Scenario {
 				if w.returned[i] && w.seen[i] != w.target {
 					return o, &vsync.Verdict{Sig: "C16/N-early-return", Desc: fmt.Sprintf("waiter %d returned with value %d", i, w.seen[i])}
 				}
-				if !w.returned[i] && !w.cancelled {
-					return o, &vsync.Verdict{Sig: "C16/N-spurious-false", Desc: "Wait returned false without cancellation"}
+				if !w.returned[i] && (!w.cancelled || (cancelFirstOnly && i > 0)) {
+					return o, &vsync.Verdict{Sig: "C16/N-spurious-false", Desc: fmt.Sprintf("Wait of waiter %d returned false although its context was not cancelled", i)}
 				}
 			}
 			return o, nil
@@ -101,13 +106,15 @@ func TestVerifC16N(t *testing.T) {
 	for _, wn := range []int{1, 2} {
 		for _, up := range []int{1, 2} {
 			for _, c := range []bool{false, true} {
-				scs = append(scs, nScenario(wn, up, c))
+				scs = append(scs, nScenario(wn, up, c, false))
 			}
 		}
 	}
+	scs = append(scs, nScenario(2, 1, true, true), nScenario(2, 2, true, true))
 	bound, budget := 3, 3*time.Minute
 	if vrep.Thorough() {
 		bound, budget = 5, 15*time.Minute
+		scs = append(scs, nScenario(3, 1, true, true))
 	}
 	vsync.ExploreScenarios(rep, "N", scs, bound, 400, budget)
 }
